@@ -558,6 +558,31 @@ var Helpers = []*HelperEntity{
 			}
 			return r
 		}},
+	{Name: "helper.TypedInt64Arith", NIn: 1, // MultiplyBy and IncrementBy over int64 beyond 2^53 (and a product that wraps): the model is n*m and n+i in int64
+		Build: func(p []int, in []<-chan F) []<-chan F {
+			c := helper.Duplicate(helper.Map(in[0], func(v F) int64 { return (int64(v) + 5) * 1000000000000001 }), 4)
+			res := []<-chan int64{helper.MultiplyBy(c[0], 1), helper.MultiplyBy(c[1], 3), helper.MultiplyBy(c[2], 1<<10), helper.IncrementBy(c[3], 1)}
+			var out []<-chan F
+			for _, r := range res {
+				d := helper.Duplicate(r, 2)
+				out = append(out, helper.Map(d[0], func(v int64) F { return F(v >> 32) }), helper.Map(d[1], func(v int64) F { return F(v & 0xffffffff) }))
+			}
+			return out
+		},
+		Model: func(p []int, in [][]F) [][]F {
+			r := make([][]F, 8)
+			for i := range r {
+				r[i] = []F{}
+			}
+			for _, v := range in[0] {
+				x := (int64(v) + 5) * 1000000000000001
+				for k, y := range []int64{x * 1, x * 3, x * (1 << 10), x + 1} {
+					r[2*k] = append(r[2*k], F(y>>32))
+					r[2*k+1] = append(r[2*k+1], F(y&0xffffffff))
+				}
+			}
+			return r
+		}},
 	{Name: "helper.FieldPromoted", NIn: 1, // a field promoted from an embedded struct (asset rows embedding a price struct)
 		Build: func(p []int, in []<-chan F) []<-chan F {
 			rows := helper.Map(in[0], func(v F) *fieldOuter { return &fieldOuter{N: 7, fieldRow: fieldRow{A: v, B: 2 * v}} })
@@ -629,6 +654,8 @@ func (c16) Gen(rng *rand.Rand, tier string, k int) *Case {
 			n = 0
 		} else if rng.Intn(12) == 0 {
 			n = 13 + rng.Intn(70) // longer than any fixed-size internal buffer
+		} else if rng.Intn(60) == 0 {
+			n = 129 + rng.Intn(200) // longer than a buffer of 64 or 128 as well
 		}
 		c.Lens = make([]int, h.NIn)
 		for i := range c.Lens {
